@@ -23,7 +23,8 @@ RULE = ("The product lhs-kind x rhs-kind x sense x written-direction is enumerat
         "hands to scipy.optimize.minimize (captured at the minimize seam) have type ineq/eq, fun = s*(l-r) "
         "with s=-1 for <=, +1 for >=, and jac = s*grad(l-r) with the SAME s.  Non-trivial = operand kinds are "
         "not (expression, Python float), or reflected spelling, or more than one element.  Vector-expression operands include "
-        "x ** k and f(x) of a vector variable (element-wise results) on either side.")
+        "x ** k and f(x) of a vector variable (element-wise results) on either side."
+        ' Also (round 6): array right-hand sides in column-major / transposed-view / negatively strided memory layouts; an earlier problem sharing the constraint object under another column layout of the same width.')
 BUDGET = {"quick": {"workers": 16, "per_cell": 5}, "thorough": {"workers": 16, "per_cell": 40}}
 ASSUMPTIONS = ["scalar-expression right-hand sides of vector/matrix comparisons are not a documented operand pair and are not generated"]
 MANIFEST = {
